@@ -58,6 +58,16 @@ CHECKS.update({
         technique="Kani/CBMC bounded model checking of macro expansions, handler call counters and closed-form results"),
 })
 
+CHECKS.update({
+    "C01": dict(
+        level="translation_validation", ref="3 (C01), Appendix A",
+        text="Translation validation of the real expansions against the documented plain-Rust method chain, written independently from the documentation table: every operator alone on every "
+             "input type it types on, every typeable ordered operator pair (sampled in the quick tier), sampled chains of 3-6 operators, chains under try/spawn/alias names as only and as second "
+             "branch, future-level chains under the six async names. One CBMC query per packed group decides equality of values AND callback traces for ALL symbolic inputs (carrier states, "
+             "iterator elements, thresholds). A well-typed program whose expansion does not build is reported as a build-stage violation.",
+        technique="Kani/CBMC equivalence checking of macro expansion vs documented method chain over symbolic inputs (translation validation)"),
+})
+
 NOT_APPLICABLE = {
     "C15": "Quantifies over token streams fed to the expander and has no run-time dimension; deciding it needs symbolic execution of JoinInputDefault::parse + generate_join, "
            "and Kani 0.68 ICEs on proc_macro2::Ident::new / does not finish pushing one token into a TokenStream in 900 s (DESIGN.md 1.1, 4). A hand model of the parser would not be the repository's code.",
